@@ -2,6 +2,7 @@ package checks
 
 import (
 	"fmt"
+	null "github.com/unravelin/null/v5"
 	"math"
 	"reflect"
 	"testing"
@@ -27,6 +28,13 @@ type c17Holder struct {
 	MF32 map[string]float32 `json:"mf32"`
 	PF32 *float32           `json:"pf32"`
 	F32b []float32          `json:"f32b"` // declared array<float> by the caller's schema
+	// the null.* wrappers over the same wire types, at both integer and float widths
+	NI32 null.Int   `json:"ni32"`
+	NI64 null.Int   `json:"ni64"`
+	NF32 null.Float `json:"nf32"`
+	NF64 null.Float `json:"nf64"`
+	SNI  []null.Int `json:"sni"`
+	PNI  *null.Int  `json:"pni"`
 }
 
 type c17SliceCase struct {
@@ -51,7 +59,9 @@ var c17HolderSchema = `{"type":"record","name":"h","fields":[
  {"name":"b","type":{"type":"array","items":"boolean"}},
  {"name":"mf32","type":{"type":"map","values":"double"}},
  {"name":"pf32","type":["null","double"]},
- {"name":"f32b","type":{"type":"array","items":"float"}}]}`
+ {"name":"f32b","type":{"type":"array","items":"float"}},
+ {"name":"ni32","type":"int"},{"name":"ni64","type":"long"},{"name":"nf32","type":"float"},{"name":"nf64","type":"double"},
+ {"name":"sni","type":{"type":"array","items":"int"}},{"name":"pni","type":["null","int"]}]}`
 
 func runC17Slices(c c17SliceCase) error {
 	lib, err := avro.SchemaFromString(c17HolderSchema)
@@ -125,6 +135,21 @@ func runC17Slices(c c17SliceCase) error {
 		copy(h.B, c.B)
 	}
 
+	if len(c.Ints) > 0 {
+		x := c.Ints[0]
+		h.NI32, h.NI64 = null.IntFrom(int64(int32(x))), null.IntFrom(x)
+		p := null.IntFrom(int64(int32(x)))
+		h.PNI = &p
+		for _, y := range c.Ints {
+			h.SNI = append(h.SNI, null.IntFrom(int64(int32(y))))
+		}
+	}
+	if len(c.F32) > 0 {
+		h.NF32 = null.FloatFrom(float64(math.Float32frombits(c.F32[0])))
+	}
+	if len(c.F64) > 0 {
+		h.NF64 = null.FloatFrom(math.Float64frombits(c.F64[0]))
+	}
 	w := avro.NewWriteBuf(nil)
 	codec.Write(w, reflect.ValueOf(&h).UnsafePointer())
 	out := append([]byte(nil), w.Bytes()...)
@@ -188,6 +213,27 @@ func runC17Slices(c c17SliceCase) error {
 		}
 	}
 
+	// the wrappers: same wire values as the plain fields
+	if len(c.Ints) > 0 {
+		x := c.Ints[0]
+		if f[9].I != int64(int32(x)) || f[10].I != x || f[14].Branch != 1 || f[14].U.I != int64(int32(x)) || len(f[13].Items) != len(c.Ints) {
+			return fmt.Errorf("null.Int %d: written as int %d, long %d, [null,int] branch %d, %d array items", x, f[9].I, f[10].I, f[14].Branch, len(f[13].Items))
+		}
+		for i, y := range c.Ints {
+			if f[13].Items[i].I != int64(int32(y)) {
+				return fmt.Errorf("sni[%d]: null.Int %d written as %d", i, int32(y), f[13].Items[i].I)
+			}
+		}
+	}
+	if len(c.F32) > 0 {
+		if _, nan := widen32(c.F32[0]); uint32(f[11].F) != c.F32[0] && !(nan && uint32(f[11].F) == c.F32[0]|1<<22) {
+			return fmt.Errorf("null.Float holding float32 %#08x written under a float schema as %#08x", c.F32[0], uint32(f[11].F))
+		}
+	}
+	if len(c.F64) > 0 && f[12].F != c.F64[0] {
+		return fmt.Errorf("null.Float %#016x written as %#016x", c.F64[0], f[12].F)
+	}
+
 	// and read back
 	var g c17Holder
 	rb := avro.NewReadBuf(out)
@@ -226,6 +272,26 @@ func runC17Slices(c c17SliceCase) error {
 		if g.B[i] != x {
 			return fmt.Errorf("b[%d] read back as %v", i, g.B[i])
 		}
+	}
+	if len(c.Ints) > 0 {
+		x := c.Ints[0]
+		if !g.NI32.Valid || g.NI32.Int64 != int64(int32(x)) || !g.NI64.Valid || g.NI64.Int64 != x || g.PNI == nil || !g.PNI.Valid || g.PNI.Int64 != int64(int32(x)) || len(g.SNI) != len(c.Ints) {
+			return fmt.Errorf("null.Int %d / %d read back as %+v (int), %+v (long), %+v ([null,int]), %d array items", int32(x), x, g.NI32, g.NI64, g.PNI, len(g.SNI))
+		}
+		for i, y := range c.Ints {
+			if !g.SNI[i].Valid || g.SNI[i].Int64 != int64(int32(y)) {
+				return fmt.Errorf("sni[%d]: null.Int %d read back as %+v", i, int32(y), g.SNI[i])
+			}
+		}
+	}
+	if len(c.F32) > 0 {
+		want := float64(math.Float32frombits(c.F32[0]))
+		if !g.NF32.Valid || (g.NF32.Float64 != want && want == want) || (want != want && g.NF32.Float64 == g.NF32.Float64) {
+			return fmt.Errorf("null.Float holding float32 %#08x read back from a float column as %v", c.F32[0], g.NF32)
+		}
+	}
+	if len(c.F64) > 0 && (!g.NF64.Valid || math.Float64bits(g.NF64.Float64) != c.F64[0]) {
+		return fmt.Errorf("null.Float %#016x read back as %#016x", c.F64[0], math.Float64bits(g.NF64.Float64))
 	}
 	return nil
 }
